@@ -176,8 +176,9 @@ for op in (1, 4, 5, 6):
     co_jobs(op, 'release', 'quick')
 for op in (2, 3, 9):
     co_jobs(op, 'release', 'quick', nslot=1, restmax=40)
-for op in (2, 3, 7, 8, 9):
+for op in (2, 3, 8, 9):
     co_jobs(op, 'release', 'thorough', timeout=3000, mem=16)
+co_jobs(7, 'release', 'thorough', nslot=1, restmax=40, timeout=3000, mem=16)      # two slots per block: no verdict within 3000 s under load
 for op in (4, 6):
     co_jobs(op, 'baseline', 'thorough', timeout=3000, mem=16)
 # leak accounting (C15) needs a leak-checking configuration; 'leak' = leak counter only
@@ -186,7 +187,7 @@ for op in (4, 6, 10):
     co_jobs(op, 'leak', 'quick', timeout=1200)
 co_jobs(10, 'release', 'quick')
 co_jobs(2, 'leak', 'quick', nslot=1, restmax=40, timeout=1200)
-co_jobs(7, 'leak', 'thorough', timeout=3000, mem=16)
+co_jobs(7, 'leak', 'thorough', nslot=1, restmax=40, timeout=3000, mem=16)
 
 # ---------------------------------------------------------------- adapters over recording leaves
 AD_COMP = {'direct': ['EXACT_SHAPE'], 'ref': ['EXACT_SHAPE'], 'any': [], 'ts': ['EXACT_SHAPE', 'EXPECT_MUTEX', 'LOCK_PROXY'], 'al': ['NEED_POW2_ARG'],
@@ -206,6 +207,13 @@ for comp, defs in AD_COMP.items():
                     defines=['COMP=%s' % comp, 'API=%d' % api, 'KINDSEL=%d' % ks, 'HEAP_SIZE=256'] + defs, unwind=8, timeout=300, tier=tier,
                     desc='%s: one %s %s request and its matching release over recording leaves' % (AD_DESC[comp], 'composable' if api else 'throwing', 'array' if ks else 'node'),
                     bounds='size 1..65535, count 1..8, alignment 1..64 (powers of two), leaf maxima and success/failure of every leaf call symbolic')
+for comp, defs, dsc in (('min', ['TRAITS_DEFAULTS'], 'allocator_adapter<minimal RawAllocator (allocate_node/deallocate_node only)>: allocator_traits defaults'),
+                        ('stdl', ['TRAITS_DEFAULTS', 'STD_LEAF'], 'allocator_adapter<standard-library style Allocator>: allocator_traits rebinds to char and forwards byte counts')):
+    for ks in (0, 1):
+        add('adapt-%s-throw-%s-release' % (comp, 'array' if ks else 'node'), ['C09', 'C18'], 'adapt', 'adapt_step.c', config='release',
+            defines=['COMP=%s' % comp, 'API=0', 'KINDSEL=%d' % ks, 'HEAP_SIZE=256'] + defs, unwind=8, timeout=300,
+            desc='%s: one throwing %s request and its matching release' % (dsc, 'array' if ks else 'node'),
+            bounds='size 1..65535, count 1..8, alignment 1..64 (std style: 1..16), success/failure of the leaf call symbolic')
 for sa in ('sa1', 'sa3', 'sa24', 'sa48'):
     add('adapt-misc-1-%s' % sa, ['C09', 'C10'], 'adapt', 'adapt_misc.c', config='release', defines=['CASE=1', 'SA=%s' % sa, 'HEAP_SIZE=512'], unwind=8, timeout=300,
         desc='std_allocator<T, leaf>::allocate(n)/deallocate(p, n), T = %s' % sa, bounds='n 1..5')
